@@ -190,9 +190,60 @@ def copy_prop(expr, fn, depth=3):
     return expr
 
 
+def always_exits(stmts):
+    """does every path through this statement list leave the enclosing block (return/raise/continue/break)?"""
+    for st in stmts:
+        if isinstance(st, (ast.Return, ast.Raise, ast.Continue, ast.Break)):
+            return True
+        if isinstance(st, ast.If) and st.orelse and always_exits(st.body) and always_exits(st.orelse):
+            return True
+        if isinstance(st, ast.Try) and not st.handlers and always_exits(st.body):
+            return True
+        if isinstance(st, ast.With) and always_exits(st.body):
+            return True
+    return False
+
+
 def guards_of(node, fn):
-    """list of (test expr, branch True/False) of the enclosing if/while/ifexp tests between
-    `node` and function `fn` (innermost first). 'elif' chains are ifs in orelse."""
+    """path conditions of `node` inside `fn`: list of (test expr, truth) — innermost first.
+    * enclosing if / while / conditional-expression tests with the branch taken,
+    * and the negation of every *earlier sibling* `if` whose taken branch always leaves the block
+      (guard-clause / early-return style):   if c: return ...      <node>        => (c, False)"""
+    out = []
+    child = node
+    for a in A.ancestors(node):
+        # earlier siblings of `child` in the block of `a` that always exit
+        for field in ('body', 'orelse', 'finalbody'):
+            block = getattr(a, field, None)
+            if isinstance(block, list) and any(child is s for s in block):
+                for s in block:
+                    if s is child:
+                        break
+                    if isinstance(s, ast.If):
+                        if always_exits(s.body) and not always_exits(s.orelse):
+                            out.append((s.test, False))
+                        elif s.orelse and always_exits(s.orelse) and not always_exits(s.body):
+                            out.append((s.test, True))
+        if isinstance(a, ast.ExceptHandler):
+            pass
+        if a is fn:
+            break
+        if isinstance(a, (ast.If, ast.While)):
+            if any(child is s for s in a.body):
+                out.append((a.test, True))
+            elif any(child is s for s in a.orelse):
+                out.append((a.test, False))
+        elif isinstance(a, ast.IfExp):
+            if child is a.body:
+                out.append((a.test, True))
+            elif child is a.orelse:
+                out.append((a.test, False))
+        child = a
+    return out
+
+
+def enclosing_guards(node, fn):
+    """only the tests of the if/while/conditional-expressions that lexically enclose `node`"""
     out = []
     child = node
     for a in A.ancestors(node):
@@ -208,10 +259,84 @@ def guards_of(node, fn):
                 out.append((a.test, True))
             elif child is a.orelse:
                 out.append((a.test, False))
-        elif isinstance(a, ast.Assert):
-            pass
         child = a
     return out
+
+
+class _Expand(ast.NodeTransformer):
+    def __init__(self, defs, helpers, depth):
+        self.defs = defs
+        self.helpers = helpers
+        self.depth = depth
+
+    def visit_Name(self, n):
+        if isinstance(n.ctx, ast.Load) and n.id in self.defs and self.depth > 0:
+            d = self.defs[n.id]
+            if d is not None:
+                sub = _Expand({k: v for k, v in self.defs.items() if k != n.id}, self.helpers, self.depth - 1)
+                return sub.visit(A.clone(d))
+        return n
+
+    def visit_Lambda(self, n):
+        return n
+
+
+def expand(expr, fn, depth=4):
+    """copy of `expr` in which every local that has exactly one (simple, non self-referential) definition in `fn`
+    is replaced by that definition, recursively: undoes "named intermediate" refactorings for shape recognition.
+    Positions of the original node are kept on the root."""
+    import copy as _c
+    defs = {}
+    an = assigned_names(fn)
+    loopvars = set()
+    for n in A.walk_local(fn):
+        if isinstance(n, (ast.For, ast.comprehension)):
+            loopvars.update(A.name_targets(n.target))
+        elif isinstance(n, ast.AugAssign) and isinstance(n.target, ast.Name):
+            loopvars.add(n.target.id)
+        elif isinstance(n, (ast.With,)):
+            for it in n.items:
+                if it.optional_vars is not None:
+                    loopvars.update(A.name_targets(it.optional_vars))
+    params = {a.arg for a in fn.args.posonlyargs + fn.args.args + fn.args.kwonlyargs} if hasattr(fn, 'args') else set()
+    for name, vals in an.items():
+        if len(vals) == 1 and name not in loopvars and name not in params and name not in A.names_in(vals[0]):
+            defs[name] = vals[0]
+    new = _Expand(defs, None, depth).visit(A.clone(expr))
+    ast.copy_location(new, expr)
+    ast.fix_missing_locations(new)
+    return new
+
+
+def all_defs_satisfy(expr, fn, pred, depth=3):
+    """expr satisfies pred, or is a local Name all of whose definitions (recursively) satisfy pred"""
+    if pred(expr):
+        return True
+    if isinstance(expr, ast.Name) and depth > 0:
+        defs = assigned_names(fn).get(expr.id)
+        if defs:
+            return all(all_defs_satisfy(d, fn, pred, depth - 1) for d in defs)
+    if isinstance(expr, ast.IfExp):
+        return all_defs_satisfy(expr.body, fn, pred, depth) and all_defs_satisfy(expr.orelse, fn, pred, depth)
+    return False
+
+
+def aliases_caller_object(expr, fn, depth=3):
+    """does expr denote (an alias of) an object the caller handed in / a stored raw attribute, rather than a newly
+    computed one? Names are followed through their local definitions."""
+    params = {a.arg for a in fn.args.posonlyargs + fn.args.args + fn.args.kwonlyargs}
+    if isinstance(expr, ast.Name):
+        if expr.id in params:
+            return True
+        defs = assigned_names(fn).get(expr.id)
+        if defs and depth > 0:
+            return any(aliases_caller_object(d, fn, depth - 1) for d in defs)
+        return False
+    if isinstance(expr, ast.Attribute):
+        return True
+    if isinstance(expr, ast.Call) and (A.dotted(expr.func) or '').endswith('asarray'):
+        return True
+    return False
 
 
 def returns_of(fn):
